@@ -516,7 +516,17 @@ pub fn format_swift_amount_min_decimals(amount: f64, min_decimals: usize) -> Str
 /// ```
 pub fn format_swift_amount(amount: f64, decimals: usize) -> String {
     let formatted = format!("{:.width$}", amount, width = decimals);
-    formatted.replace('.', ",")
+    fit_amount_length(formatted.replace('.', ","), 15)
+}
+
+/// Drop trailing zeros of the fraction while the text is longer than the amount component allows
+/// (15d, or 12d for rates): "12345678901234,00" does not fit 15d, "12345678901234," does, and
+/// both read the same. The decimal comma stays.
+pub fn fit_amount_length(mut text: String, max_len: usize) -> String {
+    while text.len() > max_len && text.contains(',') && text.ends_with('0') {
+        text.pop();
+    }
+    text
 }
 
 /// Format amount for SWIFT output with currency-specific decimal precision
